@@ -14,7 +14,7 @@ ID = lambda s: ('id', s)
 NUM = lambda v: ('num', v)
 TIMES = {'u5': [0.0, 0.25, 0.5, 0.75, 1.0], 'u4h': [0.0, 0.5, 1.0, 1.5]}
 LATTICE = [0.02, 0.3, 0.6, 0.97]
-MODES = ['det', 'ssa', 'safe', 'volume', 'delay', 'lineage']
+MODES = ['det', 'ssa', 'safe', 'volume', 'delay', 'delayvol', 'lineage']
 
 
 def rule_models(tier):
@@ -110,6 +110,12 @@ def run_impl(mode, impl, us, times, dt, lineage=None):
         return e1.run_volume(impl, us, times, dt, dict(type='const', V=2.0))
     if mode == 'delay':
         return e1.run_delay(impl, us, times, dt, len(times), dt=dt)
+    if mode == 'delayvol':
+        # delay and volume together: only reachable through the entry point (DelayVolumeSSASimulator)
+        from bioscrape.simulator import py_simulate_model
+        with Stream(us) as st:
+            res = py_simulate_model(np.array(times), Model=impl.model, stochastic=True, delay=True, volume=2.0, return_dataframe=False)
+        return dict(rows=impl.rows(res.py_get_result()), consumed=st.consumed, overrun=st.overrun)
     raise ValueError(mode)
 
 
@@ -195,7 +201,7 @@ def run_config(c, cfg):
         model.py_initialize()
         model.create_parameter('unused_extra', 1.0)
     impl = e1.Impl(sp, safe, prepare=reinit if cfg.get('reinit') else None)
-    net = RS.Net(sp, 'stochvol' if mode == 'volume' else 'stoch', safe)
+    net = RS.Net(sp, 'stochvol' if mode in ('volume', 'delayvol') else 'stoch', safe)
     sched = [t for t in tags if t.startswith('scheduled:')]
     impl_wo = None
     if sched:
@@ -207,6 +213,8 @@ def run_config(c, cfg):
             return RS.ssa(net, times, dt=dt)
         if mode == 'volume':
             return RS.volume_ssa(net, times, dt, dict(type='const', V=2.0))
+        if mode == 'delayvol':
+            return RS.delay_volume_ssa(net, times, dt, dt, len(times), dict(type='const', V=2.0))
         return RS.delay_ssa(net, times, dt, len(times), dt=dt)
 
     def on_trace(choices, menus, ref):
@@ -259,13 +267,13 @@ def run(ctx):
                     continue
                 cfgs.append(dict(name=name, spec=sp, tags=tags, mode=mode, grid=grid, bound=2 if ctx.quick else 3,
                                  depth=4 if ctx.quick else 6))
-                if mode in ('ssa', 'safe', 'volume', 'delay') and grid == 'u5' and ('counter' in tags or 'ode' in tags):
+                if mode in ('ssa', 'safe', 'volume', 'delay', 'delayvol') and grid == 'u5' and ('counter' in tags or 'ode' in tags):
                     # the same on a model that was initialised, extended and initialised again
                     cfgs.append(dict(name=name, spec=sp, tags=tags, mode=mode, grid=grid, bound=2, depth=4, reinit=True))
     ctx.bounds = dict(configs=len(cfgs), cost_bound=cfgs[0]['bound'], lineage_lattice_depth=cfgs[0]['depth'], grids=TIMES)
     ctx.rule = ('E1+E2: rule sets chained in dependency order (repeated assignment to a parameter -> assignment to a species -> additive; '
                 'dt counter mirrored by a repeated assignment; ODE rule; rule scheduled at start and at every interior grid time) on models '
-                'without reactions, with reactions, and whose rate reads a rule-assigned parameter or species; modes deterministic, SSA, '
+                'without reactions, with reactions, and whose rate reads a rule-assigned parameter or species; modes deterministic, SSA, delay+volume (through the entry point), '
                 'safe, volume, delay (reference-led exploration of the scripted stream to the cost bound, every trace replayed) and lineage '
                 'single cell (every raw script over {0.02,0.3,0.6,0.97}^depth, plus the reference-led tree of the lineage single-cell reference with conformance of every row). Oracles on the real rows: fixed point of the repeated rules; '
                 'counter advances by exactly 1 and ODE target by rate*dt between consecutive rows from the second on; a scheduled rule leaves '
